@@ -78,7 +78,7 @@ fn struct_fields(file: &syn::File, rel: &str, name: &str) -> Result<Vec<String>,
 }
 
 pub fn generate(repo: &PathBuf) -> Result<String, String> {
-    let enums: [(&str, &str); 9] = [
+    let enums: [(&str, &str); 10] = [
         ("ant-protocol/src/lib.rs", "NetworkAddress"),
         ("ant-protocol/src/storage/header.rs", "RecordType"),
         ("ant-protocol/src/messages.rs", "Request"),
@@ -88,8 +88,9 @@ pub fn generate(repo: &PathBuf) -> Result<String, String> {
         ("ant-protocol/src/messages/response.rs", "QueryResponse"),
         ("ant-protocol/src/messages/response.rs", "CmdResponse"),
         ("ant-protocol/src/error.rs", "Error"),
+        ("ant-registers/src/permissions.rs", "Permissions"),
     ];
-    let structs: [(&str, &str); 8] = [
+    let structs: [(&str, &str); 14] = [
         ("ant-protocol/src/storage/header.rs", "RecordHeader"),
         ("ant-evm/src/data_payments.rs", "PaymentQuote"),
         ("ant-evm/src/data_payments.rs", "ProofOfPayment"),
@@ -98,6 +99,14 @@ pub fn generate(repo: &PathBuf) -> Result<String, String> {
         ("ant-protocol/src/storage/transaction.rs", "Transaction"),
         ("ant-registers/src/address.rs", "RegisterAddress"),
         ("ant-protocol/src/storage/address/scratchpad.rs", "ScratchpadAddress"),
+        // newtype structs inside messages (transparent on the wire; listed so that a serde attribute or a hand-written impl on them is refused)
+        ("ant-protocol/src/storage/address/chunk.rs", "ChunkAddress"),
+        ("ant-protocol/src/storage/address/transaction.rs", "TransactionAddress"),
+        ("ant-protocol/src/messages/chunk_proof.rs", "ChunkProof"),
+        // the payload of the two register kinds
+        ("ant-registers/src/register.rs", "Register"),
+        ("ant-registers/src/register.rs", "SignedRegister"),
+        ("ant-registers/src/register_op.rs", "RegisterOp"),
     ];
     let mut s = header("the serde-derived wire types of ant-protocol, ant-evm, evmlib, ant-registers");
     s.push_str("namespace SafeNet.Gen.WireShape\n");
